@@ -92,6 +92,43 @@ def lifetime_boundary(ctx):
     return out
 
 
+def wrapped_pool(ctx):
+    """a rebalancer around a balancer whose pool is (partly) managed on the balancer itself: populated before it was wrapped, or
+    a server withdrawn on the balancer. Rebalancer.Servers() reports the balancer's pool - that pool is what a cookie is resolved
+    against. (No rebalancer administration call follows a direct one: the rebalancer would write its own records back.)"""
+    rng = random.Random(ctx.seed * 193 + 5)
+    out = []
+    j = 0
+    for codec in CODECS:
+        for mode in ("prepopulated", "withdrawn", "mixed"):
+            nk = rng.randint(2, 4)
+            keys = R.KEYS[:nk]
+            var = {k: rng.randrange(5) for k in keys}
+            steps = []
+            for i, k in enumerate(keys):
+                direct = mode == "prepopulated" or (mode == "mixed" and i % 2 == 1)
+                st = {"op": "upsert", "k": k, "v": var[k], "w": rng.choice([1, 2])}
+                if direct:
+                    st["direct"] = True
+                steps.append(st)
+            if mode != "prepopulated":   # rebalancer calls first, direct ones afterwards
+                steps.sort(key=lambda s: bool(s.get("direct")))
+            for _ in range(nk + 1):      # every server gets a session
+                steps.append({"op": "serve", "cookie": "none", "mut": "none"})
+            for k in keys:
+                steps.append({"op": "serve", "cookie": "for:" + k, "mut": "none"})
+                steps.append({"op": "serve", "cookie": "for:" + k, "mut": "none"})
+            if mode != "prepopulated":
+                gone = rng.choice(keys)
+                steps.append({"op": "remove", "k": gone, "v": var[gone], "direct": True})
+                for k in keys:
+                    steps.append({"op": "serve", "cookie": "for:" + k, "mut": "none"})
+                    steps.append({"op": "serve", "cookie": "for:" + k, "mut": "none"})
+            out.append({"id": "wrap-%d" % j, "cfg": {"subject": "rb", "sticky": codec_str(codec), "table": j}, "steps": steps})
+            j += 1
+    return out
+
+
 def classify(clause, sc, report, evs):
     # which codec and URL class was involved: the defect sites differ per codec
     sticky = sc["cfg"].get("sticky", "")
@@ -112,6 +149,7 @@ def run(ctx, replay):
                         "gen-sticky", num=200 if quick else 2000, depth=15, seed=ctx.seed)
     scs = from_tlc(behs[:1500 if quick else 20000], ["rr", "rb"]) + seeded(ctx, 80 if quick else 800, 60 if quick else 200)
     scs += lifetime_boundary(ctx)
+    scs += wrapped_pool(ctx)
     # malformed values of every length (truncations of an issued cookie, never-issued strings over the cookie alphabet)
     for ci, codec in enumerate(CODECS):
         for subject in ("rr", "rb"):
